@@ -256,8 +256,11 @@ def judge(run, prop, results, claimed):
             run.cov["traces_validated_against_impl"] += r["runs"]
         for res in r["distinct"]:
             run._distinct.add(json.dumps([prog["name"], res["history"], res.get("final")], sort_keys=True, default=repr))
+            # exception classes that no sequential execution of these operations produces (KeyError & co. are results)
+            odd = sorted({h["ret"].get("e", "?") for h in res["history"] if h["e"] == "ret" and isinstance(h.get("ret"), dict)
+                          and h["ret"].get("t") == "!" and h["ret"].get("e") not in ("KeyError", "IndexError", "ValueError", "TypeError")})
             base = {"program": prog, "op": prog["name"], "cls": prog["cls"], "schedule": res.get("schedule", [])[:120],
-                    "choices": res.get("choices"), "history": res["history"]}
+                    "choices": res.get("choices"), "history": res["history"], "raised": ",".join(odd)}
             if res["errors"]:
                 run.machinery_error(f"{prog['name']}: {res['errors']}")
                 continue
@@ -391,7 +394,8 @@ def check_C14(tier):
                        "bound to one file, unbuffered and inside buffer_backend() of both strategies; "
                        + KNOWN_NOTE.format(b=2) + "; histories validated by TLC against Lin.tla (a read must return a "
                        "value the collection had between its call and its return; no lost write; no exception)")
-    run.assumptions += ["JSON backend", "preemption bound 2 at primitive granularity"]
+    run.assumptions += ["JSON backend", "preemption bound 2 at primitive granularity; a sample of reader || whole-container "
+                        "writer programs with one preemption between any two executed lines of library code"]
     progs = []
     for cls, kind, buffered in (("JSONDict", "d", None), ("JSONList", "l", None), ("BufferedJSONDict", "d", {"cap": None}),
                                 ("MemoryBufferedJSONDict", "d", {"cap": None}), ("MemoryBufferedJSONList", "l", {"cap": None})):
@@ -411,6 +415,25 @@ def check_C14(tier):
                               "same_object": hr == hw})
     results = run_programs(run, progs, 2, 80 if tier == "quick" else 300)
     judge(run, "C14", results, ("lin", "deadlock", "exit"))
+    # line-level preemption (between any two executed lines of library code, e.g. inside the walk that builds the
+    # result of () or ==): readers next to writers that replace or empty whole containers
+    lp = []
+    for cls, kind in (("JSONDict", "d"), ("JSONList", "l"), ("MemoryBufferedJSONDict", "d")):
+        reads = [r for r in (READ_D if kind == "d" else READ_L) if r["op"] in ("call", "eq", "keys", "iter")]
+        muts = [m for m in (MUT_D if kind == "d" else MUT_L) if m["op"] in ("clear", "reset", "update", "extend")]
+        for r in reads:
+            for w in muts:
+                for (hr, hw) in (("root", "root"), ("other", "root")):
+                    lp.append({"name": f"{cls}{'[buffered]' if cls.startswith('Memory') else ''}:{hr}.{r['op']}(read)||{hw}.{w['op']}",
+                               "cls": cls, "threads": {"t1": [(hr, r)], "t2": [(hw, w)]},
+                               "buffered": {"cap": None} if cls.startswith("Memory") else None, "same_object": hr == hw})
+    if tier == "quick":
+        always = [p for p in lp if p["same_object"] and p["name"].endswith("root.clear")
+                  and (".call(" in p["name"] or ".eq(" in p["name"])]
+        rest = [p for p in lp if p not in always]
+        lp = always + rnd.sample(rest, 8)
+    lres = run_programs(run, lp, 1, 120 if tier == "quick" else 400, line_level=True)
+    judge(run, "C14", lres, ("lin", "deadlock", "exit"))
     mres = threads_model(run, "C14", ["C14_TwoObjectsLinearizable"], tier)
     for r in mres:     # same-object reader||writer behaviours carry the known-finding signature
         th = r["prog"]["threads"]
